@@ -300,7 +300,42 @@ func genStopOrder(l *Loader) (string, string, error) {
 			}) {
 				return "", "", fmt.Errorf("Stop: %s: the %s.Done() case must return without Unload/OnStop", where, ctxName)
 			}
+			// a statement `recv.helper()` (no arguments) whose callee is a method of the same type in this package is
+			// replaced by the statements of that method (one level): "extract method" must not hide the operations
+			type doneStmt struct {
+				st    ast.Stmt
+				rname string
+			}
+			var flat []doneStmt
 			for _, bs := range doneBody {
+				inlined := false
+				if es, ok := bs.(*ast.ExprStmt); ok {
+					if call, ok := es.X.(*ast.CallExpr); ok && len(call.Args) == 0 {
+						if sel, ok := call.Fun.(*ast.SelectorExpr); ok && exprString(sel.X) == recv {
+							for _, f := range p.Files {
+								for _, d := range f.Decls {
+									fd, ok := d.(*ast.FuncDecl)
+									if !ok || fd.Name.Name != sel.Sel.Name || fd.Recv == nil || len(fd.Recv.List) != 1 || len(fd.Recv.List[0].Names) != 1 || fd.Body == nil {
+										continue
+									}
+									if exprString(fd.Recv.List[0].Type) != exprString(fn.Recv.List[0].Type) {
+										continue
+									}
+									for _, hs := range fd.Body.List {
+										flat = append(flat, doneStmt{hs, fd.Recv.List[0].Names[0].Name})
+									}
+									inlined = true
+								}
+							}
+						}
+					}
+				}
+				if !inlined {
+					flat = append(flat, doneStmt{bs, recv})
+				}
+			}
+			for _, ds := range flat {
+				bs, recv := ds.st, ds.rname
 				if isLogStmt(bs) {
 					continue
 				}
